@@ -394,7 +394,20 @@ namespace sse
             // the library's nodes_areas (bound to this model by C18).
         }
         // per-node overrides (structured grids): looped never allowed as/over an override
-        for (auto& ov : g.overrides)
+        // raster override keys >= 100000 encode a raw (row, col) pair: 100000 + row * 100 + col
+        // (a column beyond the row length must be rejected even when row * ncols + col is a
+        // valid flat index)
+        std::vector<std::pair<int, int>> ovs;
+        for (auto ov : g.overrides)
+        {
+            if (g.kind == RASTER && ov.first >= 100000)
+            {
+                int row = (ov.first - 100000) / 100, col = (ov.first - 100000) % 100;
+                ov.first = (row < g.nr && col < g.nc) ? row * g.nc + col : -1;
+            }
+            ovs.push_back(ov);
+        }
+        for (auto& ov : ovs)
         {
             if (ov.first < 0 || ov.first >= r.n || ov.second == LOOPED
                 || r.status[static_cast<std::size_t>(ov.first)] == LOOPED)
@@ -404,7 +417,7 @@ namespace sse
             }
         }
         if (r.constructible && g.kind != TRIMESH)
-            for (auto& ov : g.overrides)
+            for (auto& ov : ovs)
                 r.status[static_cast<std::size_t>(ov.first)] = ov.second;
         return r;
     }
